@@ -271,6 +271,15 @@ def rangeContains (r : Option NRange) (v : NVersion) : Bool :=
   | none => false
   | some r => decide (r.lower.compare v ≠ .gt) && decide (r.upper.compare v = .gt)
 
+/-- The database-side test of a `VersionFilter` matcher
+    (`version_kind = $kind AND vulnerable_range @> $version`, the range stored
+    only when both ends are of one kind — `rangefmt`): kinds agree and the
+    half-open range contains the version. -/
+def dbSideHit (r : Option NRange) (v : NVersion) : Bool :=
+  match r with
+  | none => false
+  | some r => decide (r.lower.kind = r.upper.kind) && decide (r.lower.kind = v.kind) && rangeContains (some r) v
+
 /-- gobin/matcher.go, nodejs/matcher.go: `Vulnerable` is a no-op; the
     matchers are `VersionFilter`s with `VersionAuthoritative() == true`. -/
 def vulnerableNoop (_ : Pkg) (_ : Vuln) : Out := .ok false
